@@ -159,3 +159,10 @@ PROPS["C14"] = dict(explanation="(a) Bounded symbolic execution of the real Writ
     bounds=["(a) two buckets per request, one mismatching in one of three ways, values symbolic, X new or existing, both map orders", "(b) source types int16,int32,int64,uint8,uint16,uint32,uint64,float32,float64 x the same destination types, one symbolic value; floats k/16 resp. k/1024 with |k| <= 2^20 resp. 2^40"],
     outside=["negative floats coerced to unsigned columns (implementation-defined in Go, assumed away)", "reordered columns with equal names (accepted by design: matching is by name)", "known finding region: the X row of a rejected request stays queued and is stored by the next flush when the map yields X before Y"],
     stubs=FS_STUBS + ["reflect: engine mini-reflect"], assumptions=COMMON_ASSUME)
+
+
+PROPS["C33"] = dict(explanation="Bounded symbolic execution of the real CSVtoNumpyMulti inside the chunked import loop of cmd/connect/session/load.go (replicated in the harness), with io.NewNumpyDataset/NewNumpyMultiDataset/ToColumnSeriesMap real. The outcome of every csv.Reader.Read call follows a case-split script (data row or parse error, then end of file), the chunk size is case-split; either every data row in front of the end of the file is loaded exactly once and in order, or an error is reported. In the native replay a real csv.Reader reads a generated file body (a bare quote makes a row malformed) and the real field conversion runs.",
+    runs=[dict(pkg="cmd/connect/loader", files=["c33_csv.go"], entries=["VerifC33ImportLoop"], must_reach=["entered", "imported"], opts=dict(timeout=30))],
+    bounds=["files of 0..5 lines, each a data row or a malformed row (all 2^n patterns), chunk sizes 1..3"],
+    outside=["field parsing (strconv/time on symbolic text): convertCSVtoCSM is replaced by a stub that builds one row per chunk line", "column mapping (ReadMetadata), the control file", "chunk sizes above 3 (session/load.go uses 1,000,000)"],
+    stubs=["(*csv.Reader).Read: scripted outcome per call", "loader.convertCSVtoCSM: one row per line, Epoch from the first field"], assumptions=COMMON_ASSUME)
